@@ -11,7 +11,7 @@ use std::f64::consts::PI;
 
 pub fn monitor() -> Monitor {
   Monitor { id: "C12",
-    rule: "polygons: 3..9 vertices on sorted bearings (gaps in [0.05, 0.95 pi]) around a centre at radius R (convex, inscribed in a small circle) or R x U(0.3,1) (star-shaped), either winding; R drawn per decade from 1e-10 rad to 0.79 rad, query depth matched so that R/cell is in [0.02, 40]; centres uniform, near meridians k.pi/4 (incl. lon ~ 0), near the transition latitude, 1 in 6 inside a polar cap astride lon = 0 or another seam meridian, never within R + 0.02 rad of a pole; both exact_solution values. Oracles: no panic / abnormal exit, well formed, every vertex's cell covered, convex & full => 4 vertices + centre inside (half-space margin >= -1e-12), R < 0.3 => cell centres within r + 2 x the largest centre-to-vertex distance of the depth of EVERY containing cone tried (the generation circle and, per edge, a cone of radius < 0.3 centred up to 0.28 rad on the inner side of the edge, i.e. nearly the edge's half-space), Polygon::contains == half-space oracle for points with |margin| > 1e-12 (uniform on the sphere, within 1.5 R, and on the meridian of every vertex +- 0..3 ulps). Interior witnesses missed are information only. Non-trivial = polygon crossing lon = 0, a meridian k.pi/2 or the transition latitude, clockwise winding, R below one cell, or R < 1e-6 rad.",
+    rule: "polygons: 3..9 vertices on sorted bearings (gaps in [0.05, 0.95 pi]) around a centre at radius R (convex, inscribed in a small circle) or R x U(0.3,1) (star-shaped), either winding; R drawn per decade from 1e-10 rad to 0.79 rad, query depth matched so that R/cell is in [0.02, 40]; centres uniform, near meridians k.pi/4 (incl. lon ~ 0), near the transition latitude, 1 in 6 inside a polar cap astride lon = 0 or another seam meridian, 1 in 10 with a vertex exactly on a special point of the grid (centre / vertex of a cell of level 0..2), never within R + 0.02 rad of a pole; both exact_solution values. Oracles: no panic / abnormal exit, well formed, every vertex's cell covered, convex & full => 4 vertices + centre inside (half-space margin >= -1e-12), R < 0.3 => cell centres within r + 2 x the largest centre-to-vertex distance of the depth of EVERY containing cone tried (the generation circle and, per edge, a cone of radius < 0.3 centred up to 0.28 rad on the inner side of the edge, i.e. nearly the edge's half-space), Polygon::contains == half-space oracle for points with |margin| > 1e-12 (uniform on the sphere, within 1.5 R, and on the meridian of every vertex +- 0..3 ulps). Interior witnesses missed are information only. Non-trivial = polygon crossing lon = 0, a meridian k.pi/2 or the transition latitude, clockwise winding, R below one cell, or R < 1e-6 rad.",
     assumptions: &["half-space oracle for convex polygons in a gnomonic chart computed from coordinate differences (refm::convex_margin_acc; relative accuracy ~1e-15 at every polygon size)", "Layer::hash (C01) locates vertices"],
     run, replay }
 }
@@ -35,10 +35,26 @@ pub fn gen_poly(rng: &mut Rng) -> Option<Case> {
   lon = lon.rem_euclid(TWO_PI);
   if lat.abs() + rmax > PI / 2.0 - 0.02 { return None; }
   let nv = 3 + rng.below(7) as usize;
-  let mut bear: Vec<f64> = (0..nv).map(|_| rng.f() * TWO_PI).collect(); bear.sort_by(|a, b| a.partial_cmp(b).unwrap());
+  let mut bear: Vec<f64> = (0..nv).map(|_| rng.f() * TWO_PI).collect();
+  // one polygon in 10 has a vertex that is EXACTLY a special point of the grid (centre or vertex of a cell of level 0..2, as the crate
+  // returns them: (k.pi/2, 0), (k.pi/4, +-asin 2/3), ...): the centre is moved to distance R from it and the point becomes a vertex
+  let mut special: Option<((f64, f64), f64)> = None;
+  if rng.below(10) == 0 {
+    let k = rng.below(3) as u8; let h = rng.below(n_hash(k)); let ly = nested::get_or_create(k);
+    let sp = if rng.coin() { ly.center(h) } else { ly.vertices(h)[rng.below(4) as usize] };
+    if sp.1.abs() + 2.0 * rmax < PI / 2.0 - 0.02 {
+      let c = point_at(sp.0, sp.1, rmax, rng.f() * TWO_PI);
+      lon = c.0.rem_euclid(TWO_PI); lat = c.1;
+      let mut dl = sp.0 - lon; if dl.abs() > PI { dl = (dl + PI).rem_euclid(TWO_PI) - PI; }
+      let east = sp.1.cos() * dl.sin(); let north = lat.cos() * sp.1.sin() - lat.sin() * sp.1.cos() * dl.cos();
+      let th = north.atan2(east).rem_euclid(TWO_PI);
+      bear[0] = th; special = Some((sp, th));
+    }
+  }
+  bear.sort_by(|a, b| a.partial_cmp(b).unwrap());
   for i in 0..nv { let g = (bear[(i + 1) % nv] - bear[i]).rem_euclid(TWO_PI); if g > PI * 0.95 || g < 0.05 { return None; } }
   let mut vl = Vec::new(); let mut vb = Vec::new();
-  let mut pts: Vec<(f64, f64)> = bear.iter().map(|&b| point_at(lon, lat, if convex { rmax } else { rmax * (0.3 + 0.7 * rng.f()) }, b)).collect();
+  let mut pts: Vec<(f64, f64)> = bear.iter().map(|&b| match special { Some((sp, th)) if th == b => (sp.0.rem_euclid(TWO_PI), sp.1), _ => point_at(lon, lat, if convex { rmax } else { rmax * (0.3 + 0.7 * rng.f()) }, b) }).collect();
   let cw = rng.coin();
   if cw { pts.reverse(); }
   // vertices given with longitudes outside [0, 2pi) (one polygon in 12, each vertex independently)
@@ -107,7 +123,17 @@ pub fn judge(ctx: &mut Ctx, c: &Case) {
     for (k, v) in poly.iter().enumerate() {
       ctx.eval();
       let h = nested::hash(depth, v.0, v.1);
-      if cover.get(depth, h).is_none() { ctx.violation("polygon-vertex-cell-missing", ce.clone().u("k", k as u64), format!("vertex {} {:?} in cell {} not covered; {} cells", k, v, h, cells.len())); break; }
+      // a vertex lying on a cell border (exact grid points, or within rounding of a border once its longitude is brought back to
+      // [0, 2pi) by the crate) belongs to several closed cells: any covered cell that contains it (reference geometry) will do
+      let covered_by_a_cell_containing_it = || -> bool {
+        let e = 1e-3 / nside(depth) as f64;
+        for &dx in [-e, 0.0, e].iter() { for &dy in [-e, 0.0, e].iter() {
+          let q = (v.0 + dx / v.1.cos().max(1e-6), (v.1 + dy).max(-PI / 2.0).min(PI / 2.0));
+          if let Ok(hq) = catch(|| nested::hash(depth, q.0, q.1)) { if cover.get(depth, hq).is_some() && contains(depth, hq, v.0, v.1, plane_tol(v.0) + 4e-16).0 { return true; } }
+        } }
+        false
+      };
+      if cover.get(depth, h).is_none() && !covered_by_a_cell_containing_it() { ctx.violation("polygon-vertex-cell-missing", ce.clone().u("k", k as u64), format!("vertex {} {:?} in cell {} not covered; {} cells", k, v, h, cells.len())); break; }
     }
     for &(d, h, f) in cells.iter() {
       if convex && f {
